@@ -40,7 +40,7 @@ def build(c, extent_bits=None):
     root = "uavcan" if c["port"]["root"] == "standard" else "vnd"
     lines = []
     d = c["dir"]
-    if c["dep"] == "dep_uses_dep" or d == "deprtwice":
+    if c["dep"] in ("dep_uses_dep", "both_dep_use_dep") or d == "deprtwice":
         lines.append("@deprecated")
     if d == "deprtwice":
         lines.append("@deprecated")
@@ -66,7 +66,7 @@ def build(c, extent_bits=None):
         lines.append("void8")
     if c["kind"] == "unionconst1":
         lines.append("uint8 ONLY_CONST = 1")
-    if c["dep"] in ("uses_dep", "dep_uses_dep", "uses_nondep"):
+    if c["dep"] in ("uses_dep", "dep_uses_dep", "uses_nondep", "both_use_dep", "both_dep_use_dep"):
         lines.append("%s.Dep.1.0 depfield" % root)
     elif c["dep"] == "uses_dep_array":
         lines.append("%s.Dep.1.0[<=2] depfield" % root)
@@ -119,6 +119,9 @@ def build(c, extent_bits=None):
     files = {"%s/%s/%s" % (root, tok(c["nsname"]["t"]), fname): "\n".join(lines) + "\n"}
     if c["dep"] != "none":
         files["%s/Dep.1.0.dsdl" % root] = ("" if c["dep"] == "uses_nondep" else "@deprecated\n") + "@sealed\n"
+    if c["dep"] in ("both_use_dep", "both_dep_use_dep"):
+        # a deprecated sibling that sorts (and is read) before the definition under test uses the same deprecated type
+        files["%s/AaaFirst.1.0.dsdl" % root] = "@deprecated\n%s.Dep.1.0 depfield\n@sealed\n" % root
     return files, root, bool(p["allow"])
 
 def _sealed_variant(c):
